@@ -7,7 +7,9 @@ import vlib
 from runner import Property, ExecError
 from vlib import cz, clist, cbool
 
-EK = {"inv": 0, "fs": 1, "fe": 2, "ret": 3, "create": 5, "destroy": 6, "adv": 7, "lk": 8}
+EK = {"inv": 0, "fs": 1, "fe": 2, "ret": 3, "create": 5, "destroy": 6, "adv": 7, "lk": 8,
+      "hij": 9,      # the handler of a request took its connection over (http.Hijacker)
+      "cls": 10}     # Close() of the connection hijacked by thread v (any number of times)
 OVERLAY = {"core/timex/relativetime.go": "/verif/harness/overlay/timex/relativetime.go",
            "core/syncx/verif_c05_hooks.go": "/verif/harness/overlay/syncx/verif_c05_hooks.go"}
 # TimeoutLimit.Borrow arg: 0 one hour, 1 zero, 2 negative timeout; request arg: 0 returns, 1 panics with a
@@ -110,7 +112,7 @@ def regen_constants():
 class C05(Property):
     id = "C05"
     title = "Concurrency caps are never exceeded and capacity is never leaked"
-    quick_cases = 500
+    quick_cases = 400
     thorough_cases = 5000
     design_ref = "DESIGN.md §6/C05"
     consts = None
@@ -656,6 +658,8 @@ class C05(Property):
                     v = (e.get("v") or [0])[0]
                     if case["kind"] == "tr" and kk in (1, 2):
                         v = 0
+                    if kk == 10:
+                        v = loc.get(v, FOREIGN)     # the hijacker, as a thread of this instance
                     log.append([e["t"], a, kk, e["op"], v])
                     lastt = e["t"]
                     if kk == 3 and e["a"] < nt:
